@@ -22,6 +22,8 @@ DECIDED_R6 = ('Round 6: candidate list evaluated with module constants in scope;
 DECIDED = DECIDED + ' ' + DECIDED_R6
 DECIDED_R7 = ('Round 7: no 405 is built outside resolve / handler; Route.methods hands out a copy; the Route registered by _add is fresh or the one the tree holds.')
 DECIDED = DECIDED + ' ' + DECIDED_R7
+DECIDED_R8 = ('Round 8: the values to_route is given are read after the before_request hooks; default_error_handler returns a body, not a response; premise C11.c (validate before mutate).')
+DECIDED = DECIDED + ' ' + DECIDED_R8
 NOT_DECIDED = 'which route the path selects (C01).'
 ASSUMPTIONS = ['dict and list behave as in CPython', 'C01 selects the route']
 
@@ -419,6 +421,30 @@ def check(P, R):
                      why='after per-method removal the route answers with exactly the methods left', key_extra='table-handed-out')
             elif vx_ is not None and any(isinstance(x_, ast.Attribute) and dotted(x_) == 'self._methods' for x_ in ast.walk(vx_)):
                 R.ob('C02.e', pm_, rst_, True, text=f'Route.{pname_} hands out a copy of the method table')
+    # remove_method removes every name it is given: an unregistered name in the list does not end the removal of the others
+    rmm_ = rc_.methods.get('remove_method')
+    if rmm_ is not None:
+        n_rm = 0
+        for st_ in walk_shallow(rmm_.node):
+            removal = None
+            if isinstance(st_, ast.Delete) and any(isinstance(t_, ast.Subscript) and dotted(t_.value) == 'self._methods' for t_ in st_.targets):
+                removal = st_
+            elif isinstance(st_, ast.Call) and call_attr(st_) == 'pop' and dotted(st_.func.value) == 'self._methods' and len(st_.args) == 1:
+                removal = st_
+            elif isinstance(st_, ast.Call) and call_attr(st_) == 'pop' and dotted(st_.func.value) == 'self._methods':
+                n_rm += 1
+            if removal is None:
+                continue
+            n_rm += 1
+            loops_ = [l_ for l_ in T.loops_of(removal)]
+            tr_ = enclosing(removal, ast.Try)
+            catches = tr_ is not None and any(h_.type is None or 'KeyError' in src(h_.type) or 'LookupError' in src(h_.type) or src(h_.type) in ('Exception',) for h_ in tr_.handlers)
+            outside = bool(loops_) and catches and not T._inside(tr_, loops_[0].body)
+            R.ob('C02.e', rmm_, removal, not outside, text=f'`{short(removal)}`: an unregistered name does not end the removal of the others', detail='' if not outside else
+                 f'`{short(removal)}` raises for a name that is not registered, and the handler that catches it sits around the whole loop: the names behind the first '
+                 f'unregistered one stay registered - remove_method([\'PATCH\', \'GET\']) leaves GET served and listed in Allow',
+                 why='after per-method removal the route answers with exactly the methods left', key_extra='remove-all-listed')
+        R.require(n_rm >= 1, 'Route.remove_method: no removal from the method table found')
     from . import c11 as _c11
     _c11.check_fresh_route(P, R, 'C02.e', 'after removal and re-registration the route answers with exactly the methods registered last')
     for r in rets:
